@@ -173,8 +173,28 @@ let run_lines (ghost : bool) (lines : string list) (out : out_channel) =
 let read_lines ic =
   let rec go acc = match input_line ic with l -> go (l :: acc) | exception End_of_file -> List.rev acc in go []
 
+(* ---------- C10: auto-despawn op sequences ---------- *)
+let parse_aop (s : string) : aop =
+  match String.split_on_char ':' s with
+  | ["sp"; e] -> OSpawn (ni e) | ["pr"; g; e] -> OPrepare (ni g, ni e) | ["cl"; g] -> OClone (ni g)
+  | ["db"; g] -> ODropBegin (ni g) | ["de"; g] -> ODropEnd (ni g) | ["gc"] -> OGc
+  | ["ds"; e] -> ODespawn (ni e) | ["dr"; e] -> ODespawnRec (ni e) | ["par"; e; p] -> OSetParent (ni e, ni p)
+  | _ -> fail "bad op %s" s
+
+let run_c10 (lines : string list) (out : out_channel) =
+  List.iter (fun l ->
+    let ops = List.map parse_aop (words l) in
+    let tr = ad_trace ops ad_init in
+    output_string out (String.concat " | " (List.map (fun al -> String.concat "," (List.map string_of_int (List.sort compare (List.map int_of_n al)))) tr));
+    output_char out '\n') lines
+
 let () =
   let args = List.tl (Array.to_list Sys.argv) in
+  match args with
+  | ["-c10"; f] ->
+      let ic = open_in f in let lines = read_lines ic in close_in ic;
+      let oc = open_out (f ^ ".model.log") in run_c10 lines oc; close_out oc
+  | _ ->
   let ghost, args = match args with "-ghost" :: r -> true, r | r -> false, r in
   match args with
   | ["-"] -> run_lines ghost (read_lines stdin) stdout
